@@ -1,4 +1,154 @@
-(* Case runner and spec checker (T3) for C16 — stub. *)
-From WI Require Import Lib.Base Lib.Info Model.Curve.
-Definition run_C16 (op : bytes) (input : arg) : arg := AL [].
-Definition check_C16 (op : bytes) (input impl : arg) : arg := AL [].
+(* Case runner and spec checker (T3) for C16. *)
+From WI Require Import Lib.Base Lib.Info Lib.CurveRow Model.Curve.
+From WI Require Spec.C16.
+Open Scope N_scope.
+
+(* ---------- decoding / printing of the case values ---------- *)
+(* integers travel as (neg #magnitude) *)
+Definition z_of_arg (a : arg) : Z :=
+  let m := Z.of_N (be_to_N (arg_bytes (arg_nth 1 a))) in
+  if arg_bool (arg_nth 0 a) then (- m)%Z else m.
+Definition optz_of_arg (a : arg) : option Z :=
+  match a with AL [z] => Some (z_of_arg z) | _ => None end.
+
+(* minimal big-endian bytes of n (0 -> empty), as big.Int.Bytes *)
+Fixpoint be_min_fuel (fuel : nat) (n : N) (acc : bytes) : bytes :=
+  match fuel with
+  | O => acc
+  | S f => if n =? 0 then acc else be_min_fuel f (n / 256) ((n mod 256) :: acc)
+  end.
+Definition be_min (n : N) : bytes := be_min_fuel (S (N.to_nat (N.size n))) n [].
+Definition arg_of_z (z : Z) : arg :=
+  AL [AZ (if (z <? 0)%Z then 1 else 0)%Z; AB (be_min (Z.abs_N z))].
+Definition arg_of_optz (o : option Z) : arg :=
+  match o with Some z => AL [arg_of_z z] | None => AL [] end.
+
+(* fields = (oid-arcs prime? char2? a b seed seedbits base order cofactor) *)
+Definition params_of_arg (a : arg) : ec_params :=
+  mk_ecp (map arg_N (arg_list (arg_nth 0 a)))
+         (optz_of_arg (arg_nth 1 a)) (optz_of_arg (arg_nth 2 a))
+         (arg_bytes (arg_nth 3 a)) (arg_bytes (arg_nth 4 a))
+         (arg_bytes (arg_nth 5 a)) (arg_Z (arg_nth 6 a))
+         (arg_bytes (arg_nth 7 a)) (z_of_arg (arg_nth 8 a)) (z_of_arg (arg_nth 9 a)).
+Definition arg_of_params (p : ec_params) : arg :=
+  AL [AL (map (fun n => AZ (Z.of_N n)) (p_field p)); arg_of_optz (p_prime p); arg_of_optz (p_char2 p);
+      AB (p_a p); AB (p_b p); AB (p_seed p); AZ (p_seed_bits p); AB (p_base p);
+      arg_of_z (p_order p); arg_of_z (p_cofactor p)].
+
+Definition arg_of_row (c : curve_row) : arg :=
+  AL [AB (c_key c); AB (c_name c); AB (c_display c); arg_of_z (c_order c);
+      AB (c_a c); AB (c_b c); AB (c_gx c); AB (c_gy c); AB (c_seed c);
+      AL (map (fun lc => AL [AZ (Z.of_N (fst lc)); AZ (Z.of_N (snd lc))]) (c_lencap c))].
+
+Definition run_C16 (op : bytes) (input : arg) : arg :=
+  if bytes_eqb op (bs "match") then
+    let p := params_of_arg (arg_nth 0 input) in
+    AL [obs_result AB (curve_name p);
+        AL (map (fun c => obs_result ok_arg (params_match c p)) table)]
+  else if bytes_eqb op (bs "unmarshal") then
+    (* the decoder must give back the field values that were encoded *)
+    match arg_nth 0 input with
+    | AL [AZ 0%Z; f] => AL [AZ 0%Z; arg_of_params (params_of_arg f)]
+    | other => other
+    end
+  else if bytes_eqb op (bs "inspect") then
+    let kind := arg_N (arg_nth 0 input) in
+    let pem := arg_bool (arg_nth 1 input) in
+    let st := arg_nth 2 input in
+    obs_result arg_of_info
+      (container_info kind pem (arg_N (arg_nth 0 st)) (params_of_arg (arg_nth 1 st)))
+  else if bytes_eqb op (bs "inspectx") then
+    AL [AZ 0%Z; AL []]
+  else if bytes_eqb op (bs "table") then
+    AL (map arg_of_row table)
+  else AL [].
+
+(* ---------- the property, evaluated on the implementation's observation (T3) ----------
+   Independent of Model/Curve.v and of the repository's table: the constants are those of
+   Spec/C16.v.  "Curve (inferred): X" may appear only if the prime, both coefficients, the group
+   order and the base point (both coordinates, or x and the sign of y) are those of X;
+   equality is equality of the integers.  No panic, whatever the components. *)
+Import Spec.C16.
+Open Scope N_scope.
+
+(* the predicates themselves (first_word, base_is_generator, spec_components) are in Spec/C16.v *)
+Definition components_equal (with_prime : bool) (k : curve_consts) (f : arg) : bool :=
+  spec_components with_prime k (optz_of_arg (arg_nth 1 f)) (arg_bytes (arg_nth 3 f))
+    (arg_bytes (arg_nth 4 f)) (arg_bytes (arg_nth 7 f)) (z_of_arg (arg_nth 8 f)).
+
+Definition check_name (fields : option arg) (shown : bytes) : option string :=
+  match nist (first_word shown) with
+  | None => Some "a curve name is reported as inferred that is not one of P-224/P-256/P-384/P-521"%string
+  | Some k =>
+      match fields with
+      | None => Some "a curve name is reported as inferred although the file carries no decodable explicit parameters"%string
+      | Some f =>
+          if components_equal true k f then None
+          else Some "a curve name is reported as inferred although a component (prime, a, b, base point or order) differs from that curve's"%string
+      end
+  end.
+
+Fixpoint first_some {A} (l : list (option A)) : option A :=
+  match l with [] => None | Some x :: _ => Some x | None :: r => first_some r end.
+
+(* every "Curve (inferred)" attribute anywhere in the report *)
+Fixpoint inferred_in (i : info) : list bytes :=
+  match i with
+  | Info _ attrs ch =>
+      map snd (filter (fun nv => bytes_eqb (fst nv) (bs "Curve (inferred)")) attrs) ++
+      flat_map inferred_in ch
+  end.
+
+Definition verdict (o : option string) : arg :=
+  match o with None => AL [] | Some s => AB (bytes_of_string s) end.
+
+Definition check_C16 (op : bytes) (input impl : arg) : arg :=
+  if bytes_eqb op (bs "match") then
+    let f := arg_nth 0 input in
+    let name_v :=
+      match arg_nth 0 impl with
+      | AL [AZ 0%Z; AB []] => None
+      | AL [AZ 0%Z; AB shown] => check_name (Some f) shown
+      | _ => Some "CurveNameFromParameters failed (panic) on explicit parameters"%string
+      end in
+    let row_v :=
+      first_some (map (fun nm_m =>
+        match snd nm_m with
+        | AL [AZ 0%Z; AZ 0%Z] => None
+        | AL [AZ 0%Z; _] =>
+            match nist (fst nm_m) with
+            | Some k => if components_equal false k f then None
+                        else Some "primeFieldParamsMatch accepts parameters that differ from the curve's in a, b, base point or order"%string
+            | None => None
+            end
+        | _ => Some "primeFieldParamsMatch failed (panic) on explicit parameters"%string
+        end) (combine nist_names (arg_list (arg_nth 1 impl)))) in
+    verdict (first_some [name_v; row_v])
+  else if bytes_eqb op (bs "inspect") then
+    let st := arg_nth 2 input in
+    let fields := if (arg_N (arg_nth 0 st) =? 2) then Some (arg_nth 1 st) else None in
+    match impl with
+    | AL [AZ 0%Z; i] => verdict (first_some (map (check_name fields) (inferred_in (info_of_arg i))))
+    | _ => AS "inspection of a file with explicit EC parameters failed (panic or error)"
+    end
+  else if bytes_eqb op (bs "inspectx") then
+    match impl with
+    | AL [AZ 0%Z; AL []] => AL []
+    | AL [AZ 0%Z; _] => AS "a curve name is reported as inferred although the file carries no decodable explicit parameters"
+    | _ => AS "inspection of a damaged EC file failed (panic or error)"
+    end
+  else if bytes_eqb op (bs "inspectq") then
+    (* some ECParameters structures decode somewhere in the damaged file: a shown name must be
+       justified by one of them *)
+    let cands := arg_list (arg_nth 2 input) in
+    match impl with
+    | AL [AZ 0%Z; AL shown] =>
+        verdict (first_some (map (fun s =>
+          match nist (first_word (arg_bytes s)) with
+          | None => Some "a curve name is reported as inferred that is not one of P-224/P-256/P-384/P-521"%string
+          | Some k => if existsb (components_equal true k) cands then None
+                      else Some "a curve name is reported as inferred although no parameter set decodable from the file has that curve's components"%string
+          end) shown))
+    | _ => AS "inspection of a damaged EC file failed (panic or error)"
+    end
+  else AL [].
